@@ -56,8 +56,7 @@ func loadEngine(repo string) (*Engine, error) {
 
 func main() {
 	// thousands of path states are alive at once while a large function is verified: trade some CPU for a smaller heap
-	debug.SetGCPercent(40)
-	debug.SetMemoryLimit(6 << 30)
+	debug.SetGCPercent(50)
 	if pf := os.Getenv("ROSVC_PROF"); pf != "" {
 		f, _ := os.Create(pf)
 		pprof.StartCPUProfile(f)
@@ -71,7 +70,7 @@ func main() {
 	}
 	if mp := os.Getenv("ROSVC_MEMPROF"); mp != "" {
 		go func() {
-			time.Sleep(70 * time.Second)
+			time.Sleep(time.Duration(atoiEnv("ROSVC_MEMPROF_AT", 70)) * time.Second)
 			f, _ := os.Create(mp)
 			pprof.WriteHeapProfile(f)
 			f.Close()
@@ -140,6 +139,7 @@ func cmdFn(repo, name, prop string, verbose bool) int {
 			continue
 		}
 		r := e.verifyFunction(ct, prop, "quick")
+		debug.FreeOSMemory() // thousands of path states per large function: give the memory back before the next one
 		fmt.Printf("== %s: %d paths %v in %.1fs (fork checks %d)\n", ct.Fn, r.Paths, r.ByKind, r.Seconds, e.forkChecks)
 		for _, n := range r.Notes {
 			fmt.Println("   note:", n)
@@ -162,4 +162,14 @@ func cmdFn(repo, name, prop string, verbose bool) int {
 		}
 	}
 	return rc
+}
+
+func atoiEnv(name string, def int) int {
+	if v := os.Getenv(name); v != "" {
+		var n int
+		if _, err := fmt.Sscanf(v, "%d", &n); err == nil {
+			return n
+		}
+	}
+	return def
 }
